@@ -564,13 +564,12 @@ impl Database {
         let (value, version) = {
             let mut db = self.map.write().unwrap();
             let old_value = db.get(&key.to_string()).cloned();
-            match i32::from_str_radix(
-                &old_value
-                    .as_ref()
-                    .unwrap_or(&Value::from("0"))
-                    .to_string(),
-                10,
-            ) {
+            // A removed key that still waits to be deleted from disk counts as absent (0)
+            let current_str = match &old_value {
+                Some(old) if old.state != ValueStatus::Deleted => old.to_string(),
+                _ => String::from("0"),
+            };
+            match i32::from_str_radix(&current_str, 10) {
                 Ok(current) => {
                     let next = (current + inc).to_string();
                     let new_value = match old_value {
